@@ -13,5 +13,6 @@ INVARIANT OwnerNeeded
 INVARIANT KindsDoNotMix
 INVARIANT ScriptInputsNeutral
 INVARIANT VerdictShape
+INVARIANT OrderIrrelevant
 INVARIANT Emit
 POSTCONDITION AllCasesVisited
